@@ -196,7 +196,25 @@ func c17RetryAfterRejection(c *Ctx) {
 	if r.Chance(1, 3) {
 		ops = append(ops, H("/unrelated/"+ref.Pick(r, []string{"a", "{id}", "b/c"}), "GET"))
 	}
-	switch r.Intn(4) {
+	var probes []probe
+	switch r.Intn(6) {
+	case 4, 5:
+		// a rejected call for a pattern that is not in the table yet, beside live routes it shares a parameter with: had it
+		// been installed, their nodes would have been split / would have got children. Values with a slash and values
+		// both rules accept show whether anything of that is left
+		pre := ref.Pick(r, []string{"/posts/", "/", "x", "/a/b/"})
+		tails := []string{"author", "books", "abc", "a", "auth/x"}
+		ref.Shuffle(r, tails)
+		t1, t2 := tails[0], tails[1]
+		lists := [][]string{{"GET", "GET"}, {"POST", "GET", "POST"}, {"GET", "BOGUS"}, {"PUT", "OPTIONS"}, {"DELETE", "DELETE", "GET"}}
+		if r.Bool() {
+			ops = append(ops, H(pre+"{id}/"+t1, "GET"), H(pre+"{id}/"+t2, ref.Pick(r, lists)...))
+			probes = append(probes, g(pre+"a/b/"+t1), g(pre+"7/"+t1), g(pre+"a/"+t2), g(pre+"a/b/"+t2))
+		} else {
+			ops = append(ops, H(pre+`{name:\w+}/`+t1, "GET"), H(pre+`{id:\d+}/`+t1, "GET"), H(pre+`{id:\d+}/`+t2, ref.Pick(r, lists)...))
+			probes = append(probes, g(pre+"1/"+t1), g(pre+"x/"+t1), g(pre+"1/"+t2))
+		}
+		c.Class("rejected_new_pattern_beside_live_script")
 	case 0: // rejected, then the twin takes the place, then the corrected call: must be rejected
 		ops = append(ops, H(X, bad()...), H(Y, good()...), H(X, good()...))
 	case 1: // rejected, corrected, repeated: a duplicate; the twin is rejected too
@@ -208,7 +226,7 @@ func c17RetryAfterRejection(c *Ctx) {
 		ops = append(ops, H(X, "GET"), Rm(X), H(X, bad()...), H(Y, good()...), H(X, good()...), Rm(Y), H(X, good()...))
 	}
 	c.Class("retry_after_rejection_script")
-	runDirectedHistory(c, "C17", stdIC, r.Chance(1, 4), ops, nil)
+	runDirectedHistory(c, "C17", stdIC, r.Chance(1, 4), ops, probes)
 	c.Nontrivial(fmt.Sprint(ops))
 }
 
@@ -264,6 +282,8 @@ func c17Directed() []Directed {
 		directedHist("rejected-call-leaves-split", "C17", noneIC, false, hOps(H("/u/{id}/author", "GET"), H("/u/{id}/abc", "OPTIONS")), g("/u/7/a/author"), g("/u/7/author")),
 		directedHist("reserved-method-last", "C17", noneIC, true, hOps(H("/t", "GET", "TRACE")), g("/t")),
 		directedHist("retry-after-rejected-methods", "C17", noneIC, false, hOps(H("/users/{id}/posts", "GET", "BOGUS"), H("/users/{name}/posts", "GET"), H("/users/{id}/posts", "GET")), g("/users/7/posts")),
+		directedHist("rejected-new-pattern-beside-live-route", "C17", noneIC, false, hOps(H("/posts/{id}/author", "GET"), H("/posts/{id}/books", "GET", "GET")), g("/posts/a/b/author"), g("/posts/a/books")),
+		directedHist("rejected-new-pattern-changes-priority", "C17", noneIC, false, hOps(H(`/posts/{name:\w+}/author`, "GET"), H(`/posts/{id:\d+}/author`, "GET"), H(`/posts/{id:\d+}/books`, "POST", "GET", "POST")), g("/posts/1/author")),
 		directedHist("twin-of-only-route", "C17", noneIC, false, hOps(H("/u/{id}", "GET"), H("/u/{name}", "GET"))),
 		directedHist("twin-ignore-flag", "C17", noneIC, false, hOps(H("/u/{id}/x", "GET"), H("/u/{-id}/x", "POST"))),
 		directedHist("non-twin-never-ambiguous", "C17", noneIC, false, hOps(H("/u/{id}/x", "GET"), H("/u/{name}/y", "GET"), H(`/u/{id:\d+}/x`, "GET"))),
